@@ -434,4 +434,43 @@ theorem optMap_legacy (l : List (String × String)) (P : List (Uuid × Nat)) (Y 
             · rfl
             · exact i2 e he
 
+/-- a document without `client_properties` that loads: aligned maps, every permission entry is 1, every
+    paired controller is admin -/
+theorem load_legacy_spec (d : Doc) (a : AccState) (hd : d.clientProperties = none) (h : load d = some a) :
+    Aligned a.ps ∧ (∀ e ∈ a.ps.props, e.2 = 1) ∧ ∀ u ∈ akeys a.ps.paired, isAdmin a.ps u = true := by
+  unfold load at h
+  simp only [hd] at h
+  split at h
+  · next P Y priv pub U hP hY _ _ _ =>
+    cases h
+    obtain ⟨k1, k2⟩ := optMap_legacy _ P Y hP hY
+    have hal : Aligned ⟨dictOf Y, dictOf P, dictOf U⟩ := by
+      unfold Aligned; exact (akeys_dictOf_congr P Y k1).symm
+    have hone : ∀ e ∈ dictOf P, e.2 = 1 := vals_foldl_aset_const 1 P [] k2 (by simp)
+    refine ⟨hal, hone, ?_⟩
+    intro u hu
+    have hu' : u ∈ akeys (dictOf P) := by
+      have : akeys (dictOf Y) = akeys (dictOf P) := hal
+      rw [← this]; exact hu
+    obtain ⟨v, g1, g2⟩ := aget_of_mem_keys _ u hu'
+    have : v = 1 := hone (u, v) g2
+    subst this
+    simp [isAdmin, g1]
+  · cases h
+
+/-- … and without `client_uuid_to_bytes` as well: no identifier bytes are recorded -/
+theorem load_legacy_no_ids (d : Doc) (a : AccState) (hd : d.clientProperties = none)
+    (hu : d.clientUuidToBytes = none) (h : load d = some a) :
+    (∀ u ∈ akeys a.ps.paired, isAdmin a.ps u = true) ∧ a.ps.u2b = [] := by
+  refine ⟨(load_legacy_spec d a hd h).2.2, ?_⟩
+  unfold load at h
+  simp only [hu, Option.getD_none] at h
+  split at h
+  · next P Y priv pub U _ _ _ _ hU =>
+    cases h
+    simp only [optMap, Option.some.injEq] at hU
+    subst hU
+    rfl
+  · cases h
+
 end Hap.Encoder
